@@ -153,6 +153,7 @@ def check_irq(scn: Dict[str, Any], hist: Dict[str, Any], steps: Optional[List[Di
     frames: List[Dict[str, Any]] = []
     owed = {b: False for b in SRC_BITS}           # rose while it could not be taken, unserved
     deliv_since = {b: False for b in SRC_BITS}    # some *other* delivery happened since it became owed
+    owed_in_handler = {b: False for b in SRC_BITS}  # the request rose while a handler was running
     window = {b: 0 for b in SRC_BITS}             # consecutive deliverable boundaries
     wake_run = 0
     max_latency = 0
@@ -182,10 +183,11 @@ def check_irq(scn: Dict[str, Any], hist: Dict[str, Any], steps: Optional[List[Di
         if st["ops"]:
             for bit in SRC_BITS:
                 if (pre[O_ISR] & bit) and not (prev[O_ISR] & bit):
-                    deliverable = (pre[O_IMR] & 0x80) and (pre[O_IMR] & bit) and not in_handler
+                    deliverable = (pre[O_IMR] & 0x80) and (pre[O_IMR] & bit)
                     if not deliverable and not any(fr.get("served", 0) & bit for fr in frames):
                         if not owed[bit]:
                             deliv_since[bit] = False
+                            owed_in_handler[bit] = bool(frames)
                         owed[bit] = True
                         probe("rise_while_masked")
                 if not (pre[O_ISR] & bit) and (prev[O_ISR] & bit):
@@ -325,12 +327,13 @@ def check_irq(scn: Dict[str, Any], hist: Dict[str, Any], steps: Optional[List[Di
                 # could it be taken at the end of this step?  (A further edge of a source
                 # whose handler is still running is not a separate request: the handler's
                 # acknowledge covers it — weakest reading.)
-                deliverable = (post[O_IMR] & 0x80) and (post[O_IMR] & bit) and not frames
+                deliverable = (post[O_IMR] & 0x80) and (post[O_IMR] & bit)
                 if d is not None and (d["imr_d"] & bit) and (d["isr_d"] & bit):
                     pass   # served immediately
                 elif not deliverable:
                     if not owed[bit]:
                         deliv_since[bit] = False
+                        owed_in_handler[bit] = bool(frames)
                     owed[bit] = True
                     probe("rise_while_masked")
             if fell:
@@ -379,8 +382,10 @@ def check_irq(scn: Dict[str, Any], hist: Dict[str, Any], steps: Optional[List[Di
 
         # ---- bounded liveness: owed, unmasked, pending, running, outside a handler
         for bit in SRC_BITS:
+            # inside a handler too: delivery clears the master enable, so a request can only be deliverable there
+            # when the handler re-enabled interrupts itself ("not re-entered unless it re-enables interrupts itself")
             can = (owed[bit] and (pre[O_IMR] & 0x80) and (pre[O_IMR] & bit) and (pre[O_ISR] & bit)
-                   and not in_handler and pw_pre != 2 and not st["ops"])
+                   and not any(fr.get("served", 0) & bit for fr in frames) and pw_pre != 2 and not st["ops"])
             if d is not None:
                 window[bit] = 0
                 continue
@@ -392,7 +397,8 @@ def check_irq(scn: Dict[str, Any], hist: Dict[str, Any], steps: Optional[List[Di
                 if window[bit] >= K_IRQ:
                     V("lost_irq", k, f"{SRC_NAME[bit]} rose while masked, has been unmasked and pending for "
                       f"{K_IRQ} fault-free boundaries and was not taken (IMR={pre[O_IMR]:#04x} ISR={pre[O_ISR]:#04x})",
-                      how="not_taken", source=SRC_NAME[bit], other_delivery_since_rise=deliv_since[bit])
+                      how="not_taken", source=SRC_NAME[bit], other_delivery_since_rise=deliv_since[bit],
+                      in_handler=in_handler, rose_in_handler=owed_in_handler[bit])
                     window[bit] = 0
                     owed[bit] = False
             else:
